@@ -8,6 +8,8 @@ import (
 	"go/types"
 	"os"
 	"path/filepath"
+	"runtime/debug"
+	"runtime/pprof"
 	"sort"
 	"strings"
 	"time"
@@ -20,6 +22,9 @@ import (
 const repoModule = "cuelabs.dev/go/oci/ociregistry"
 
 func main() {
+	// the loaded program (types + SSA of the stdlib closure) is a large, long-lived heap:
+	// collect less often
+	debug.SetGCPercent(800)
 	if len(os.Args) < 2 {
 		fmt.Fprintln(os.Stderr, "usage: symgo run|check|selfcheck ...")
 		os.Exit(2)
@@ -247,9 +252,15 @@ func cmdRun(args []string) int {
 	fs.BoolVar(&o.nonterm, "nonterm", false, "treat exceeding the step budget as a non-termination violation")
 	fs.StringVar(&o.vectorFile, "vector", "", "concrete replay vector: run the harness with these inputs (selfcheck)")
 	fs.BoolVar(&o.pinned, "pinned", false, "with -vector: keep inputs symbolic, pinned to the vector by solver constraints")
+	cpuprof := fs.String("cpuprofile", "", "write a CPU profile")
 	worker := fs.Bool("worker", false, "worker mode: read JSON jobs from stdin, one per line")
 	fs.Parse(args)
 
+	if *cpuprof != "" {
+		f, _ := os.Create(*cpuprof)
+		pprof.StartCPUProfile(f)
+		defer pprof.StopCPUProfile()
+	}
 	s, err := newSession(*repo, *hdir, *pkgPath)
 	if err != nil {
 		fmt.Fprintln(os.Stderr, "load:", err)
@@ -323,7 +334,7 @@ func (s *session) run(o runOpts) int {
 		return 2
 	}
 	defer solver.Close()
-	ex := &Explorer{solver: solver, maxPaths: o.maxPaths, maxSteps: o.maxSteps, maxConcretize: 64}
+	ex := &Explorer{solver: solver, maxPaths: o.maxPaths, maxSteps: o.maxSteps, maxConcretize: 64, nextSample: 1}
 	ex.deadline = start.Add(time.Duration(o.timeout) * time.Second)
 	ex.known = loadKnown(o.known, o.property, o.harness)
 	if s.it == nil {
@@ -381,6 +392,7 @@ func (s *session) run(o runOpts) int {
 		it.mstate.symbolicMapOrder = false
 		it.mstate.expectPanic = nil
 		it.mstate.observe = nil
+		it.mstate.observeVals = nil
 		it.mstate.lastNow = nil
 		it.mstate.universe = nil
 		it.mstate.fakeDigests = 0
@@ -489,16 +501,99 @@ func parseParams(s string) map[string]string {
 // samplePath records a few completed paths (decoded inputs of one model each).
 func (it *Interp) samplePath() {
 	ex := it.ex
-	if len(ex.Samples) >= 3 || ex.replaying() {
+	if ex.replaying() {
 		return
 	}
+	// sample completed paths number 1, 4, 16, 64, ... (at most 6)
+	ex.completed++
+	if len(ex.Samples) >= 6 || ex.completed != ex.nextSample {
+		return
+	}
+	ex.nextSample *= 4
+	// in a scratch frame: declare/define everything the observations mention (this can
+	// pull in heavy defining constraints) and take one model for vector and observations
+	ex.solver.Push()
+	defer ex.solver.Pop()
+	it.refObserved()
 	if ex.solver.Check() != Sat {
 		return
 	}
 	vec := ex.modelVector()
+	obs := it.observedInModel()
 	var tr []int
 	for _, d := range ex.trail[:ex.pos] {
 		tr = append(tr, d.chosen)
 	}
-	ex.Samples = append(ex.Samples, map[string]interface{}{"path_decisions": tr, "one_model_of_path_condition": vec, "observed": append([]string{}, it.mstate.observe...)})
+	ex.Samples = append(ex.Samples, map[string]interface{}{"path_decisions": tr, "one_model_of_path_condition": vec, "observed": obs})
+}
+
+// observedInModel renders the verifObserve values of the current path under the
+// solver's current model (the one the sample vector was taken from).
+func (it *Interp) refObserved() {
+	for _, t := range it.observedTerms() {
+		it.ex.solver.ref(t)
+	}
+}
+
+func (it *Interp) observedTerms() []*Term {
+	var terms []*Term
+	for _, o := range it.mstate.observeVals {
+		switch v := o.v.(type) {
+		case *Term:
+			if !v.isConst() {
+				terms = append(terms, v)
+			}
+		case Str:
+			if !v.isConcrete() && !v.isAtom() {
+				for _, b := range v.bytes() {
+					if !b.isConst() {
+						terms = append(terms, b)
+					}
+				}
+			}
+		}
+	}
+	return terms
+}
+
+func (it *Interp) observedInModel() []string {
+	terms := it.observedTerms()
+	vals := map[*Term]uint64{}
+	if len(terms) > 0 {
+		m := it.ex.solver.ValuesOfTerms(terms)
+		for i, t := range terms {
+			vals[t] = m[i]
+		}
+	}
+	val := func(t *Term) uint64 {
+		if t.isConst() {
+			return t.cv
+		}
+		return vals[t] & mask(t.sort)
+	}
+	out := []string{}
+	for _, o := range it.mstate.observeVals {
+		switch v := o.v.(type) {
+		case *Term:
+			if v.sort == SBool {
+				out = append(out, fmt.Sprintf("%s=%v", o.name, val(v) != 0))
+			} else {
+				c := &Term{op: "const", sort: v.sort, cv: val(v)}
+				out = append(out, fmt.Sprintf("%s=%d", o.name, c.sval()))
+			}
+		case Str:
+			if v.isAtom() {
+				out = append(out, o.name+"=?")
+				continue
+			}
+			var b []byte
+			for _, t := range v.bytes() {
+				b = append(b, byte(val(t)))
+			}
+			out = append(out, fmt.Sprintf("%s=%q", o.name, string(b)))
+		default:
+			out = append(out, o.name+"="+observeString(o.v))
+		}
+	}
+	return out
 }
